@@ -950,6 +950,10 @@ func runC18(r *ev.Run) {
 				for _, y := range ys {
 					sessions = append(sessions, c18Session{Kind: "points", Seq: append(append([]string{}, pre...), xx, y), NPre: len(pre)})
 				}
+				// a Connect issued while the client is still tidying up after the connection it lost
+				if xx == "cut" || xx == "disconnect" || xx == "close" {
+					sessions = append(sessions, c18Session{Kind: "points", Seq: append(append([]string{}, pre...), xx, "connect"), NPre: len(pre)})
+				}
 			}
 		}
 	} else {
